@@ -137,7 +137,7 @@ func run(c *vh.Ctx) error {
 	}
 
 	// ---- part 2: accounting through ApplyTransaction
-	nBlocks := c.N(700, 9000)
+	nBlocks := c.N(2500, 30000)
 	if c.Search {
 		nBlocks *= 3
 	}
